@@ -176,3 +176,76 @@ Definition lookup_rule_result (t : tables) (k : bytes) : lres := snd (lookup_rul
 Definition set_iteration (t : tables) (n : N) : tables :=
   mkT (key_names t) (rule_results t) (fst (fst (info t)), snd (fst (info t)), n) (cache_ids t) (cache_names t).
 Definition iteration (t : tables) : N := snd (info t).
+
+(* ---- open(): the version gate ----
+   stored = what "SELECT version,client_version FROM info LIMIT 1" yields: None when the table or its row is missing
+   (a new file), in which case the code sets version = -1, which equals no current schema version.
+   The test is  version != currentSchemaVersion || clientVersion != clientSchemaVersion. *)
+Inductive open_dec := UseStored | Recreate | Reject.
+
+Definition versions_match (stored : option (N * N)) (cur : N * N) : bool :=
+  match stored with
+  | None => false
+  | Some (sv, cv) => N.eqb sv (fst cur) && N.eqb cv (snd cur)
+  end.
+
+Definition open_decision (stored : option (N * N)) (cur : N * N) (recreate : bool) : open_dec :=
+  if versions_match stored cur then UseStored else if recreate then Recreate else Reject.
+
+(* what a process that has just opened the file sees: the file's tables, empty caches *)
+Definition fresh_process (t : tables) : tables := mkT (key_names t) (rule_results t) (info t) [] [].
+
+Definition stored_versions (file : option tables) : option (N * N) :=
+  match file with Some t => Some (fst (info t)) | None => None end.
+
+(* the tables the process works on after open(); None = open() failed with "Version mismatch" *)
+Definition open_db (file : option tables) (cur : N * N) (recreate : bool) : option tables :=
+  match open_decision (stored_versions file) cur recreate with
+  | UseStored => match file with Some t => Some (fresh_process t) | None => None end
+  | Recreate => Some (empty_tables (fst cur) (snd cur))      (* unlink, CREATE TABLEs, INSERT INTO info (0, cur, cur, 0) *)
+  | Reject => None
+  end.
+
+(* ---- the file lock ----
+   buildStarted executes BEGIN EXCLUSIVE and fails (after the busy timeout, or at once when the same connection is
+   already inside a transaction) unless nobody holds the file; buildComplete (only called by the engine after a
+   successful buildStarted) executes END and closes the connection.  While a connection holds the exclusive
+   transaction every statement of another connection fails with SQLITE_BUSY. *)
+Definition conn := N.
+Definition lock_state := list conn.          (* the connections inside BEGIN EXCLUSIVE ... END *)
+
+Definition build_started (l : lock_state) (c : conn) : lock_state * bool :=
+  match l with [] => ([c], true) | _ :: _ => (l, false) end.
+
+Definition build_complete (l : lock_state) (c : conn) : lock_state :=
+  filter (fun x => negb (N.eqb x c)) l.
+
+Definition may_write (l : lock_state) (c : conn) : bool := forallb (N.eqb c) l.
+
+(* setRuleResult issued by connection c; None = error, nothing written *)
+Definition db_write (l : lock_state) (c : conn) (t : tables) (k : bytes) (r : dbresult) : option tables :=
+  if may_write l c then Some (set_rule_result t k r) else None.
+
+Inductive lock_op := LStart (c : conn) | LComplete (c : conn).
+
+Definition lock_step (l : lock_state) (o : lock_op) : lock_state :=
+  match o with LStart c => fst (build_started l c) | LComplete c => build_complete l c end.
+
+Definition lock_run (ops : list lock_op) : lock_state := fold_left lock_step ops [].
+
+(* ---- operation sequences (for the invariant theorems) ---- *)
+Inductive db_op :=
+| DSet (k : bytes) (r : dbresult)
+| DLookup (k : bytes)
+| DIter (n : N)
+| DReopen.                                  (* the process ends; the next one starts with empty caches *)
+
+Definition db_step (t : tables) (o : db_op) : tables :=
+  match o with
+  | DSet k r => set_rule_result t k r
+  | DLookup k => fst (lookup_rule_result_st t k)
+  | DIter n => set_iteration t n
+  | DReopen => fresh_process t
+  end.
+
+Definition db_run (t : tables) (ops : list db_op) : tables := fold_left db_step ops t.
